@@ -71,7 +71,7 @@ public:
     bool fetchUnits(const UnitsPtr &importUnits, const std::string &baseFile, History &history);
 
     bool checkForImportCycles(const ImportSourcePtr &importSource, const History &history, const HistoryEpochPtr &h, const std::string &action);
-    bool checkUnitsForCycles(const UnitsPtr &units, History &history);
+    bool checkUnitsForCycles(const UnitsPtr &units, History &history, size_t depth = 0);
     bool checkComponentForCycles(const ComponentPtr &component, History &history);
 
     /**
@@ -143,16 +143,21 @@ std::string Importer::ImporterImpl::resolvingUrl(const ImportSourcePtr &importSo
     return modelUrl(model);
 }
 
-bool Importer::ImporterImpl::checkUnitsForCycles(const UnitsPtr &units, History &history)
+bool Importer::ImporterImpl::checkUnitsForCycles(const UnitsPtr &units, History &history, size_t depth)
 {
     // Even if these units are not imported, they might have imported children.
     if (!units->isImport()) {
+        auto model = owningModel(units);
+        if ((model != nullptr) && (depth > model->unitsCount())) {
+            // A chain of local unit references longer than the number of units in the model is a cycle
+            // of ordinary units (the validator reports those); there is no import to follow along it.
+            return false;
+        }
         for (size_t index = 0; index < units->unitCount(); ++index) {
             std::string ref = units->unitAttributeReference(index);
             // If the child units are imported, check them too.
-            auto model = owningModel(units);
             if (model->hasUnits(ref)) {
-                if (checkUnitsForCycles(model->units(ref), history)) {
+                if (checkUnitsForCycles(model->units(ref), history, depth + 1)) {
                     return true;
                 }
             }
